@@ -990,6 +990,32 @@ def rule_simdop(rows, prop):
     return findings, n, samples, broken
 
 
+def rule_simdpad(rows, prop):
+    """R-SIMDPAD: a partial pack with n_pad padding lanes copies exactly the n_simd_pack - n_pad data elements: inside the arm
+    `tag == n_pad` of the evaluators' padding lambdas every read `ptr[offset + i]` of operand data is dominated by the true edge of
+    i < n_simd_pack - n_pad (any spelling); the lanes beyond are filled from constants, never from memory."""
+    findings, n, samples = [], 0, []
+    for r in rows:
+        if "fn" not in r or not r.get("lambda") or not r.get("cfg") or "/eval/simd/evaluator/" not in r["file"]:
+            continue
+        if not any(f["k"] == "if" and re.search(r"== %n_pad\)|\(%n_pad ==", f["a"]) for f in r["facts"]):
+            continue
+        for f in r["facts"]:
+            if f["k"] != "assign":
+                continue
+            m = re.search(r"%(\w*data_ptr)\[\((.+) \+ %(\w+)\)\]", f["b"])
+            if not m:
+                continue
+            n += 1
+            iv = "%" + m.group(3)
+            ok = any(op == "<" and a == iv and b.replace(" ", "") in ("(%n_simd_pack-%n_pad)",) for (op, a, b) in _cmp_guards(f))
+            if not ok:
+                findings.append(finding("R-SIMDPAD", prop, r, "%s = %s" % (f["a"], f["b"]), "partial-pack copy reads %s[... + %s] without the bound %s < n_simd_pack - n_pad: a lane past the data (or past the buffer) is read; guards: %s" % (m.group(1), iv, iv, sorted(_cmp_guards(f))[:3]), f.get("line")))
+            elif len(samples) < 2:
+                samples.append("R-SIMDPAD %s under %s < n_simd_pack - n_pad" % (f["b"][:60], iv))
+    return findings, n, samples
+
+
 def comp_simd(prop, tier, comp, work):
     t0 = time.time()
     tu = os.path.join(VERIF, "drivers", "simd_inst.cpp")
@@ -1004,6 +1030,8 @@ def comp_simd(prop, tier, comp, work):
         out["broken"].append(err2); return out
     f2, n2, s2, b2 = rule_simdop(rows2, prop)
     f += f2; inst["R-SIMDOP"] = n2; samples += s2; out["broken"] += b2
+    f3, n3, s3 = rule_simdpad(rows, prop)
+    f += f3; inst["R-SIMDPAD"] = n3; samples += s3
     tot = sum(inst.values())
     out.update(findings=f, instances=inst, evaluations=tot, distinct_nontrivial=tot - len(f), samples=samples + ["(not decided: %d packed accesses with enumerator-computed offsets)" % unc], wall_s=round(time.time() - t0, 2))
     return out
